@@ -1,0 +1,118 @@
+//go:build verif
+
+// Contracts for package reporter, read by the verification-condition generator in /verif/govc.
+// This file contains comments only; it is compiled only with -tags verif and adds no code.
+
+package reporter
+
+/*@
+// ---------------------------------------------------------------------------------------------
+// The shared accounting specification (C02, C07). The resolved recipe book is captured by ghost constants
+// RDBdom / RDB / RDBlen (universally quantified); DBIs(db) says the concrete book equals them.
+// For one logged food (name n, quantity q) and an element x:
+//   CPos(n,q,x) / CNeg(n,q,x)  the non-negative / negative contributions: for a food the book defines, every
+//                              resolved element named x contributes (its amount * q); a food the book does not
+//                              define stands for itself and contributes q
+//   CHas(n,x)                  the food contributes a row for x at all
+// For the day's merged foods els[0..i):  EPos / ENeg / EHas are the sums / disjunction over the foods.
+// Every report that derives figures from the same data is specified against these functions.
+// ---------------------------------------------------------------------------------------------
+const RDBdom set[string]
+const RDB    fmap[string]seq[Element]
+const RDBlen fmap[string]int
+pred DBIs(db shared.DBNodeMap) :=
+     (forall k string :: {db[k]} (k in db) == (k in RDBdom))
+  && (forall k string :: {db[k]} k in db ==> db[k] != nil && elems(db[k].Elements) == RDB[k] && len(db[k].Elements) == RDBlen[k] && RDBlen[k] >= 0)
+
+fun CPosIn(l seq[Element], j int, q float64, x string) float64 :=
+  if j <= 0 then 0.0 else CPosIn(l, j - 1, q, x) + (if l[j-1].Name == x && !(l[j-1].Value * q < 0.0) then l[j-1].Value * q else 0.0)
+fun CNegIn(l seq[Element], j int, q float64, x string) float64 :=
+  if j <= 0 then 0.0 else CNegIn(l, j - 1, q, x) + (if l[j-1].Name == x && l[j-1].Value * q < 0.0 then l[j-1].Value * q else 0.0)
+fun CPos(n string, q float64, x string) float64 opaque :=
+  if n in RDBdom then CPosIn(RDB[n], RDBlen[n], q, x) else (if n == x && !(q < 0.0) then q else 0.0)
+fun CNeg(n string, q float64, x string) float64 opaque :=
+  if n in RDBdom then CNegIn(RDB[n], RDBlen[n], q, x) else (if n == x && q < 0.0 then q else 0.0)
+fun CHas(n string, x string) bool opaque :=
+  if n in RDBdom then SpecHas(RDB[n], RDBlen[n], x) else n == x
+fun EPos(els seq[Element], i int, x string) float64 := if i <= 0 then 0.0 else EPos(els, i - 1, x) + CPos(els[i-1].Name, els[i-1].Value, x)
+fun ENeg(els seq[Element], i int, x string) float64 := if i <= 0 then 0.0 else ENeg(els, i - 1, x) + CNeg(els[i-1].Name, els[i-1].Value, x)
+fun EHas(els seq[Element], i int, x string) bool := if i <= 0 then false else (EHas(els, i - 1, x) || CHas(els[i-1].Name, x))
+
+// the accumulator holds exactly the contributions of the foods els[0..i) plus, for the food being expanded
+// (name n, quantity q, resolved list l), those of its first j elements
+pred AccIs(acc shared.Accumulator, els seq[Element], i int, l seq[Element], j int, q float64) :=
+     (forall x string :: {acc[x]} AccPos(acc, x) == EPos(els, i, x) + CPosIn(l, j, q, x))
+  && (forall x string :: {acc[x]} AccNeg(acc, x) == ENeg(els, i, x) + CNegIn(l, j, q, x))
+  && (forall x string :: {acc[x]} (x in acc) == (EHas(els, i, x) || SpecHas(l, j, x)))
+
+// ---------------------------------------------------------------------------------------------
+// newTotalFromAccumulator: one row per key, strictly sorted by name, whatever order the map is visited in
+// ---------------------------------------------------------------------------------------------
+fun StrictStr(a seq[string], n int) bool opaque := forall p, q int :: 0 <= p && p < q && q < n ==> a[p] < a[q]
+fun TotalsSorted(ts seq[total], n int) bool opaque := forall p, q int :: 0 <= p && p < q && q < n ==> ts[p].Name < ts[q].Name
+pred TotalsOf(ts seq[total], n int, acc shared.Accumulator) :=
+     TotalsSorted(ts, n)
+  && (forall p int :: {ts[p]} 0 <= p && p < n ==> ts[p].Name in acc && ts[p].Positive == AccPos(acc, ts[p].Name) && ts[p].Negative == AccNeg(acc, ts[p].Name) && ts[p].Sum == ts[p].Positive + ts[p].Negative)
+  && n == len(acc)
+
+func newTotalFromAccumulator returns (res)
+  props C02 C05 C07
+  requires @wf WfAcc(acc)
+  calluse Sort#1 strings
+  ensures @rows [C02 C05] res != nil && fresh(res) && TotalsOf(elems(*res), len(*res), acc)
+  ensures @acc-unchanged mapval(acc) == old(mapval(acc))
+  // first loop: the keys are copied into ss in visiting order; i counts them
+  loop 1 {
+    invariant @count i == #it && len(ss) == #n && len(result) == #n && acc == old(acc) && fresh(arr(ss)) && fresh(arr(result)) && arr(ss) != arr(result)
+    invariant @copied forall j int :: {ss[j]} 0 <= j && j < #it ==> ss[j] == #ord[j]
+  }
+  ghost before return 1 { unfold TotalsSorted(elems(result), len(result)); unfold StrictStr(elems(ss), len(ss)); assert @sorted-rows TotalsSorted(elems(result), len(result)) }
+  ghost after call 1 Sort {
+    unfold SortedStr(elems(ss), len(ss))
+    lassert @keys-perm forall p int :: {ss[p]} 0 <= p && p < len(ss) ==> ss[p] in acc && ss[p] == at(call, elems(ss))[PermBack(at(call, elems(ss)), elems(ss), p)]
+    assert @keys forall p int :: {ss[p]} 0 <= p && p < len(ss) ==> ss[p] in acc
+    unfold StrictStr(elems(ss), len(ss))
+    assert @strict StrictStr(elems(ss), len(ss))
+    forget call
+  }
+  loop 2 {
+    invariant @params acc == old(acc) && mapval(acc) == old(mapval(acc)) && len(ss) == len(acc) && len(result) == len(acc) && fresh(arr(ss)) && fresh(arr(result)) && arr(ss) != arr(result) && WfAcc(acc)
+    invariant @keys forall p int :: {ss[p]} 0 <= p && p < len(ss) ==> ss[p] in acc
+    invariant @strict StrictStr(elems(ss), len(ss))
+    invariant @rows forall p int :: {result[p]} 0 <= p && p < #i ==> result[p].Name == ss[p] && result[p].Positive == AccPos(acc, ss[p]) && result[p].Negative == AccNeg(acc, ss[p]) && result[p].Sum == result[p].Positive + result[p].Negative
+  }
+
+// ---------------------------------------------------------------------------------------------
+// GetReportItem: the data handed to the register / summary templates for one day
+// ---------------------------------------------------------------------------------------------
+// row p of the item: the food as logged, followed by quantity * each resolved element (or the food itself)
+pred RowOK(re seq[reportElement], p int, els seq[Element]) :=
+     re[p].Name == els[p].Name && re[p].Value == els[p].Value
+  && (els[p].Name in RDBdom ==> len(re[p].Ingredients) == RDBlen[els[p].Name]
+        && (forall j int :: {elems(re[p].Ingredients)[j]} 0 <= j && j < len(re[p].Ingredients) ==> elems(re[p].Ingredients)[j].Name == RDB[els[p].Name][j].Name && elems(re[p].Ingredients)[j].Value == RDB[els[p].Name][j].Value * els[p].Value))
+  && (!(els[p].Name in RDBdom) ==> len(re[p].Ingredients) == 1 && elems(re[p].Ingredients)[0].Name == els[p].Name && elems(re[p].Ingredients)[0].Value == els[p].Value)
+
+// The function is verified in three passes over the same body (base + two aspects), each with only the
+// invariants its postconditions need; all passes share the preconditions.
+func GetReportItem returns (item)
+  props C02 C07 C15 C08
+  requires @args ln != nil && (forall k string :: {db[k]} k in db ==> db[k] != nil)
+  ensures @time [C02] item.Time == ln.Time
+  ensures @totals-only [C15] config.TotalsOnly ==> item.Elements != nil && *item.Elements == nil
+  ensures @no-totals [C15] !config.Totals ==> item.Totals == nil
+  ensures @fresh item.Elements != nil && fresh(item.Elements) && (config.Totals ==> item.Totals != nil && fresh(item.Totals))
+  loop 1 {
+    invariant @params ln == old(ln) && db == old(db) && config == old(config) && ln.Elements == old(ln.Elements) && ln.Time == old(ln.Time)
+    invariant @re len(re) == len(ln.Elements) && fresh(arr(re))
+    invariant @own forall p int :: {re[p]} 0 <= p && p < len(re) ==> arr(re[p].Ingredients) == 0 || arr(re[p].Ingredients) >= old(alloc())
+    invariant @acc-off !config.Totals ==> acc == nil
+    invariant @acc-on config.Totals ==> WfAcc(acc) && fresh(acc) && (forall k string :: {acc[k]} k in acc ==> arr(acc[k]) >= old(alloc()))
+  }
+  loop 2 {
+    invariant @params ln == old(ln) && db == old(db) && config == old(config) && ln.Elements == old(ln.Elements) && ln.Time == old(ln.Time) && 0 <= i && i < len(ln.Elements)
+    invariant @re len(re) == len(ln.Elements) && fresh(arr(re))
+    invariant @own forall p int :: {re[p]} 0 <= p && p < len(re) ==> arr(re[p].Ingredients) == 0 || arr(re[p].Ingredients) >= old(alloc())
+    invariant @acc-off !config.Totals ==> acc == nil
+    invariant @acc-on config.Totals ==> WfAcc(acc) && fresh(acc) && (forall k string :: {acc[k]} k in acc ==> arr(acc[k]) >= old(alloc()))
+  }
+@*/
